@@ -458,7 +458,7 @@ pub fn components() -> Value {
 pub fn assumptions() -> Vec<&'static str> {
     vec![
         "SHA-256 is collision free and the 28-bit parent tail of revision identifiers does not collide within a run",
-        "each stored item write is atomic (present completely or not at all); torn items are modelled as damage (C10), not as a write mode",
+        "each write through the Adapter is atomic (present completely or not at all); items that become visible torn and are completed later are modelled as transit/damage faults (C02 torn-arrival walk, C10 damage walk), not as a write mode of commit",
         "the sequential rayon shim executes every parallel loop in a seeded order on one thread: a legal schedule of any pool size, not all of them",
         "a clean batch is evidence over the sampled histories, not a proof",
     ]
